@@ -1,7 +1,7 @@
 (* C04 property theorems.  Only statements here; proofs are in Proofs*.v. *)
-From Coq Require Import List NArith Bool.
+From Coq Require Import List NArith Bool Permutation.
 From Gv Require Import lib.Bytes lib.Json lib.Gql lib.Exec C04.Spec C04.Model
-  C04.ProofsBasic C04.ProofsFlat C04.ProofsMerge C04.ProofsExec C04.ProofsTop C04.ProofsRefute.
+  C04.ProofsBasic C04.ProofsFlat C04.ProofsMerge C04.ProofsExec C04.ProofsTop C04.ProofsRefute C04.ProofsOverlap.
 Import ListNotations.
 
 (* (1) The transcription means something: an operation that passes [spec_valid_b] never makes the
@@ -35,27 +35,123 @@ Theorem accept_iff_valid_refuted_prefix :
 Proof. exact accept_iff_valid_refuted_prefix_proof. Qed.
 Print Assumptions accept_iff_valid_refuted_prefix.
 
-(* (3') The property itself is still refuted on the CURRENT code (after a156714): the model of the
-   two steps that decide the witness -- the repaired merge step and the validator's
-   FieldSelectionMerging rule, both tied to the Go code by correspondence (corr:C04/merge,
-   corr:C04/overlap) -- accepts { a(x:1){b} a(x:2){c} }, which the specification rejects (the rule
-   never compares names or arguments of fields whose type is not a scalar). *)
-Theorem accept_iff_valid_refuted :
-  exists S d, go_overlap_ok S (merge_fields d) = true /\ spec_valid_b S d None = false.
-Proof. exact accept_iff_valid_refuted_proof. Qed.
-Print Assumptions accept_iff_valid_refuted.
+(* (3') Historical refutations (the code after a156714 and before the repairs
+   work/c04_fix_{typename-excluded-from-merging,enum-fields-not-compared,composite-fields-not-compared,
+   leaf-vs-composite-not-compared,requirement-dropped-after-kind-mismatch,
+   composite-shape-of-unrelated-types-unchecked}.patch): the model of the
+   two steps that decided the witness -- the merge step and the validator's FieldSelectionMerging
+   rule AS THEY WERE ([old_quirks]) -- accepted { a(x:1){b} a(x:2){c} }, which the specification
+   rejects, and likewise one witness for each of the other defects of the rule. *)
+Theorem accept_iff_valid_refuted_pre_repair :
+  exists S d, go_overlap_ok_pre_repair S (norm_doc old_quirks true d) = true /\ spec_valid_b S d None = false.
+Proof. exact accept_iff_valid_refuted_pre_repair_proof. Qed.
+Print Assumptions accept_iff_valid_refuted_pre_repair.
+
+Theorem overlap_pre_repair_refuted :
+  forall d, In d [witness; w_typename; w_enum; w_names; w_leaf_composite; w_dropped; w_shape] ->
+    pre_repair_accepts d = true /\ spec_report S1 d None = [R_merge].
+Proof. exact overlap_pre_repair_refuted_proof. Qed.
+Print Assumptions overlap_pre_repair_refuted.
+
+(* (3'') The repaired rule ([go_quirks], tied to the Go code by corr:C04/overlap) rejects every one
+   of these witnesses ... *)
+Theorem overlap_fixed_rejects_witnesses :
+  forall d, In d [witness; w_typename; w_enum; w_names; w_leaf_composite; w_dropped; w_shape] -> repaired_accepts d = false.
+Proof. exact overlap_fixed_rejects_witnesses_proof. Qed.
+Print Assumptions overlap_fixed_rejects_witnesses.
+
+(* ... and, for every schema and every selection set: a field that passes a step of the repaired
+   rule has been compared by name and arguments with every recorded field of the same response
+   path and key whose parent type can be the same object, *)
+Theorem overlap_fixed_step_compares : forall S path encl s fd key st st',
+  enter_field go_quirks S path encl s fd key st = Some st' ->
+  forall r, In r (reqs st) ->
+    path_eqb (rq_path r) path = true -> bytes_eqb (rq_key r) key = true ->
+    potentially_same S (rq_encl r) encl = true ->
+    same_field go_quirks (rq_sel r) s = true.
+Proof. exact enter_field_fixed_compares_proof. Qed.
+Print Assumptions overlap_fixed_step_compares.
+
+(* it is recorded and nothing is forgotten (before the repair a field that met a requirement of
+   another type kind was not recorded), *)
+Theorem overlap_fixed_step_records : forall S path encl s fd key st st',
+  enter_field go_quirks S path encl s fd key st = Some st' ->
+  forall r, In r (reqs st') <->
+            In r (reqs st) \/ r = {| rq_path := path; rq_key := key; rq_sel := s; rq_ty := fd_type fd; rq_encl := encl |}.
+Proof. exact enter_field_fixed_records_proof. Qed.
+Print Assumptions overlap_fixed_step_records.
+
+(* a field of a leaf type (scalar or enum) and a field with a selection set never share a response
+   path and key, *)
+Theorem overlap_fixed_step_classes : forall S path encl s fd key st st',
+  enter_field go_quirks S path encl s fd key st = Some st' ->
+  forall r, In r (if is_leaf_kind go_quirks (gkind S (named_of (fd_type fd))) then snd st else fst st) ->
+    path_eqb (rq_path r) path && bytes_eqb (rq_key r) key = false.
+Proof. exact enter_field_fixed_classes_proof. Qed.
+Print Assumptions overlap_fixed_step_classes.
+
+(* and over the whole walk: two sibling fields with one response key, on a parent type that can be
+   one object, that pass the repaired rule are the same field with equal arguments, whatever their
+   type and whatever stands between them. *)
+Theorem overlap_fixed_siblings : forall S path encl l st st',
+  ov_sels go_quirks S path encl l st = Some st' ->
+  potentially_same S encl encl = true ->
+  forall l1 l2 l3 a n args dirs ss a' n' args' dirs' ss',
+    l = l1 ++ SField a n args dirs ss :: l2 ++ SField a' n' args' dirs' ss' :: l3 ->
+    response_name a n = response_name a' n' ->
+    rule_field_def S encl n <> None -> rule_field_def S encl n' <> None ->
+    n = n' /\ go_args_eqb go_quirks args args' = true.
+Proof. exact overlap_fixed_siblings_proof. Qed.
+Print Assumptions overlap_fixed_siblings.
+
+(* (3+) Arguments are a set (work/c04_fix_args-order-sensitive.patch): the repaired comparison
+   accepts every permutation of uniquely named arguments and nothing that differs in a name or a value; the positional
+   comparison of the old code is refuted by { f(x:1, y:2) f(y:2, x:1) }, a spec-valid document
+   the old rule rejected and the repaired one accepts (normalisation now de-duplicates it). *)
+Theorem args_eq_permutation : forall a b,
+  NoDup (map fst a) -> Permutation a b -> go_args_eqb go_quirks a b = true.
+Proof. exact args_byname_perm_proof. Qed.
+Print Assumptions args_eq_permutation.
+
+Theorem args_eq_sound : forall a b, go_args_eqb go_quirks a b = true ->
+  length a = length b /\
+  forall k, match assoc k a, assoc k b with
+            | Some v, Some w => go_value_eqb v w = true
+            | None, None => True
+            | _, _ => False
+            end.
+Proof. exact args_byname_sound_proof. Qed.
+Print Assumptions args_eq_sound.
+
+Theorem args_eq_positional_refuted :
+  (exists a b, Permutation a b /\ go_args_eqb old_quirks a b = false) /\
+  pre_repair_accepts w_args = false /\ spec_valid_b S1 w_args None = true /\ repaired_accepts w_args = true.
+Proof.
+  split. exact args_positional_refuted_proof.
+  split. exact (proj1 args_order_pre_repair_refuted_proof).
+  split. exact (proj2 args_order_pre_repair_refuted_proof). exact (proj1 args_order_fixed_accepts_proof).
+Qed.
+Print Assumptions args_eq_positional_refuted.
 
 (* (4) The repaired merge step merges two fields only when their argument lists are equal, and
    leaves the witness untouched (so the conflict reaches the validator). *)
 Theorem merge_fixed_requires_equal_arguments : forall a n args dirs ss a' n' args' dirs' ss',
-  can_merge true (SField a n args dirs ss) (SField a' n' args' dirs' ss') = true ->
-  go_args_eqb args args' = true.
+  can_merge go_quirks true (SField a n args dirs ss) (SField a' n' args' dirs' ss') = true ->
+  go_args_eqb go_quirks args args' = true.
 Proof. exact fixed_merge_requires_equal_arguments. Qed.
 Print Assumptions merge_fixed_requires_equal_arguments.
 
 Theorem merge_fixed_keeps_witness : merge_fields witness = witness /\ spec_report S0 witness None = [R_merge].
 Proof. exact (conj fixed_keeps_witness witness_rule). Qed.
 Print Assumptions merge_fixed_keeps_witness.
+
+(* the hypotheses of the walk theorem are satisfiable by a non-trivial selection set *)
+Example overlap_fixed_siblings_nontrivial :
+  potentially_same S1 nQuery nQuery = true /\
+  rule_field_def S1 nQuery fa <> None /\ rule_field_def S1 nQuery s_typename <> None /\
+  exists st', ov_sels go_quirks S1 [[113;117;101;114;121]] nQuery
+                [al kz fa [(ax, VInt [49])] [fld fb [] []]; fld fs [] []; al kz fa [(ax, VInt [49])] [fld fc [] []]] ([], []) = Some st'.
+Proof. vm_compute. repeat split; try discriminate. eexists. reflexivity. Qed.
 
 (* the hypotheses of (1) are satisfiable by a non-trivial operation (variables, a fragment on an
    interface spread in two places, overlapping fields) which then runs without any error *)
